@@ -23,7 +23,7 @@ MODELLED = ["evo/core/metrics.py:PE.change_unit", "evo/core/metrics.py:PE.get_st
             "evo/core/metrics.py:PE.get_all_statistics", "evo/core/metrics.py:PE.get_result",
             "evo/core/metrics.py:StatisticsType", "evo/core/metrics.py:PoseRelation",
             "evo/core/metrics.py:APE.__init__", "evo/core/metrics.py:APE.__str__",
-            "evo/core/metrics.py:RPE.__init__", "evo/core/metrics.py:RPE.__str__", "evo/core/metrics.py:RPE.process_data",
+            "evo/core/metrics.py:RPE.__init__", "evo/core/metrics.py:RPE.__str__", "evo/core/metrics.py:RPE.process_data", "evo/core/metrics.py:APE.process_data",
             "evo/core/units.py:Unit", "evo/main_ape.py:ape", "evo/main_rpe.py:rpe",
             "evo/core/trajectory.py:PosePath3D.reduce_to_ids", "evo/core/trajectory.py:PoseTrajectory3D.reduce_to_ids",
             "evo/core/geometry.py:accumulated_distances", "evo/core/result.py:Result.add_np_array"]
@@ -35,7 +35,11 @@ RULE = ("case kinds: stats (error arrays 1..2e4 values through the model, up to 
         "earlier result); ape / rpe (random stamped trajectories, all 7 relations, alignment / projection / unit options, "
         "every pairing mode, stationary reference segments for the ratio filter) compared with the bookkeeping model: "
         "stored pose ids, per-entry pose ids, timestamps, seconds, arc lengths, label and title. "
-        "non-trivial = more than one distinct value / an allowed non-identity conversion / an RPE with skipped poses")
+        "reuse (ONE metric object: 2-3 process_data calls on different trajectories with change_unit / get_result in "
+        "between, every result judged on that call's data alone); array flavours for statistics and change_unit "
+        "(strided view, read-only, int64); structured sizes 1, 2, 3, 2^k-1, 2^k, 2^k+1; trajectories built from "
+        "positions+quaternions or from pose matrices with cached views read before the call, duplicate / unsorted "
+        "timestamps, awkward names. non-trivial = more than one distinct value / an allowed non-identity conversion / an RPE with skipped poses")
 
 UNITS = ["none", "millimeters", "centimeters", "meters", "kilometers", "seconds", "degrees", "radians", "frames", "percent"]
 RELS = ["full_transformation", "translation_part", "rotation_part", "rotation_angle_rad", "rotation_angle_deg",
@@ -159,7 +163,22 @@ def gen_traj(r, n, grid):
                 axis = [c / nn for c in a]
             out.append([math.cos(ang / 2)] + [math.sin(ang / 2) * c for c in axis])
         return out
-    return {"ts": ts, "ref_xyz": ref, "est_xyz": est, "ref_q": quats(), "est_q": quats()}
+    out = {"ts": ts, "ref_xyz": ref, "est_xyz": est, "ref_q": quats(), "est_q": quats()}
+    tm = r.random()
+    if tm < 0.06 and n >= 3:
+        i = r.randrange(1, n)
+        ts[i] = ts[i - 1]                      # duplicate stamp
+        out["ts_mode"] = "dup"
+    elif tm < 0.12 and n >= 3:
+        i = r.randrange(1, n)
+        ts[i], ts[i - 1] = ts[i - 1], ts[i]    # not sorted
+        out["ts_mode"] = "unsorted"
+    if r.random() < 0.3:
+        out["route"] = "poses"
+    pre = [a for a in ("positions_xyz", "orientations_quat_wxyz", "poses_se3", "distances") if r.random() < 0.2]
+    if pre:
+        out["preread"] = pre
+    return out
 
 
 def gen_cases(ctx):
@@ -180,6 +199,44 @@ def gen_cases(ctx):
     for _ in range(6 if not th else 40):
         kind = r.choice(["gauss", "wide", "offset", "ties"])
         yield {"kind": "stats", "gen": kind, "e": rand_errors(r, r.randint(2000, 6000 if not th else 20000), kind)}
+    sizes = [k for p in range(1, 14 if not th else 18) for k in (2 ** p - 1, 2 ** p, 2 ** p + 1)]
+    for n in sorted(set(sizes)):
+        kind = r.choice(["gauss", "wide", "offset", "ties", "grid", "const"])
+        yield {"kind": "stats", "gen": kind, "e": rand_errors(r, n, kind), "sized": True}
+    for _ in range(120 if not th else 1200):
+        fl_ = r.choice(["strided", "readonly", "int"])
+        n = r.choice([1, 2, 3, r.randint(1, 40), r.randint(1, 300)])
+        e = [float(r.randint(0, 50)) for _ in range(n)] if fl_ == "int" else rand_errors(r, n, r.choice(["gauss", "wide", "grid"]))
+        what = r.random()
+        if what < 0.5:
+            yield {"kind": "stats", "gen": "flavour", "flavour": fl_, "e": e}
+        elif what < 0.8:
+            fam = r.choice([["millimeters", "centimeters", "meters", "kilometers"], ["degrees", "radians"], UNITS])
+            yield {"kind": "units", "chain": [r.choice(fam) for _ in range(r.randint(2, 4))], "e": e, "flavour": fl_}
+        else:
+            fam = r.choice([["millimeters", "centimeters", "meters", "kilometers"], ["degrees", "radians"]])
+            yield {"kind": "hist", "u": r.choice(fam), "v": r.choice(fam), "e": e, "flavour": fl_}
+    yield {"kind": "reuse", "metric": "ape", "rel": "translation_part", "corpus": "reuse-after-change_unit", "steps": [
+        {"op": "P", "traj": {"ts": [0.0, 1.0, 2.0], "ref_xyz": [[0.0, 0, 0], [1.0, 0, 0], [2.0, 0, 0]], "est_xyz": [[1.0, 0, 0], [2.0, 0, 0], [3.0, 0, 0]],
+                             "ref_q": [[1.0, 0, 0, 0]] * 3, "est_q": [[1.0, 0, 0, 0]] * 3}},
+        {"op": "C", "unit": "millimeters"}, {"op": "R"},
+        {"op": "P", "traj": {"ts": [0.0, 1.0, 2.0], "ref_xyz": [[0.0, 0, 0], [1.0, 0, 0], [2.0, 0, 0]], "est_xyz": [[2.0, 0, 0], [3.0, 0, 0], [4.0, 0, 0]],
+                             "ref_q": [[1.0, 0, 0, 0]] * 3, "est_q": [[1.0, 0, 0, 0]] * 3}},
+        {"op": "R"}]}
+    for _ in range(80 if not th else 800):
+        metric = r.choice(["ape", "rpe"])
+        rel = r.choice(["translation_part", "translation_part", "point_distance", "rotation_angle_deg", "rotation_angle_rad",
+                        "rotation_part", "full_transformation"])
+        nat = (SPEC_REL_UNIT_APE if metric == "ape" else SPEC_REL_UNIT_RPE)[rel]
+        fam = list(SPEC_LENGTH) if nat in SPEC_LENGTH else list(SPEC_ANGLE) if nat in SPEC_ANGLE else UNITS
+        steps = []
+        for k in range(r.randint(2, 3)):
+            grid = r.random() < 0.4
+            steps.append({"op": "P", "traj": gen_traj(r, r.randint(3, 6), grid)})
+            for _ in range(r.randint(0, 2)):
+                steps.append(r.choice([{"op": "C", "unit": r.choice(fam)}, {"op": "C", "unit": r.choice(UNITS)}, {"op": "R"}]))
+            steps.append({"op": "R"})
+        yield {"kind": "reuse", "metric": metric, "rel": rel, "steps": steps}
     if th:
         for nbig in (100000, 1000000):
             yield {"kind": "stats_big", "n": nbig, "seed": r.randrange(2 ** 31), "gen": r.choice(["grid", "gauss"])}
@@ -208,7 +265,8 @@ def gen_cases(ctx):
              "rel": None, "align": n >= 5 and r.random() < 0.3, "correct_scale": n >= 5 and r.random() < 0.25,
              "align_origin": r.random() < 0.2, "n_to_align": r.choice([-1, -1, -1, max(3, n - 1)]),
              "plane": r.choice([None, None, None, "xy", "xz", "yz"]),
-             "est_name": r.choice(["estimate", "runs/a/est.txt", "est one"]), "ref_name": r.choice(["reference", "gt.tum"])}
+             "est_name": r.choice(["estimate", "runs/a/est.txt", "est one", "b.tum", "1e3", "-1", "est \u00fc\u4e2d", " trailing ", "dir/"]),
+             "ref_name": r.choice(["reference", "gt.tum", "0", "ref \u00e9", "estimate "])}
         c["rel"] = r.choice(RELS if c["kind"] == "rpe" else RELS[:-1])   # APE does not offer the ratio relation
         nat = (SPEC_REL_UNIT_APE if c["kind"] == "ape" else SPEC_REL_UNIT_RPE)[c["rel"]]
         rr = r.random()
@@ -250,11 +308,25 @@ def unit_of(name):
     return Unit[name]
 
 
-def new_pe(uname, e):
+def make_array(e, flavour=None):
+    """the values e as an ndarray of the given flavour (same values in every flavour)"""
+    if flavour == "int":
+        return np.array([int(x) for x in e], dtype=np.int64)
+    if flavour == "strided":
+        base = np.full(2 * len(e) + 1, -7.5)
+        base[1::2] = e
+        return base[1::2]
+    a = np.array(e, dtype=float)
+    if flavour == "readonly":
+        a.setflags(write=False)
+    return a
+
+
+def new_pe(uname, e, flavour=None):
     from evo.core import metrics
     m = metrics.APE()
     m.unit = unit_of(uname)
-    m.error = np.array(e, dtype=float)
+    m.error = make_array(e, flavour)
     return m
 
 
@@ -262,9 +334,9 @@ def fl(x):
     return [float(v) for v in np.asarray(x, dtype=float).ravel()]
 
 
-def impl_stats(e):
+def impl_stats(e, flavour=None):
     from evo.core import metrics
-    m = new_pe("meters", e)
+    m = new_pe("meters", e, flavour)
     before = m.error.tobytes()
     allst = m.get_all_statistics()
     single = {s.value: float(m.get_statistic(s)) for s in metrics.StatisticsType}
@@ -275,7 +347,7 @@ def impl_stats(e):
 def impl_units(case):
     from evo.core import metrics
     chain = case["chain"]
-    m = new_pe(chain[0], case["e"])
+    m = new_pe(chain[0], case["e"], case.get("flavour"))
     steps = []
     for v in chain[1:]:
         arr = m.error
@@ -296,7 +368,7 @@ def res_view(res):
 
 def impl_hist(case):
     from evo.core import metrics
-    m = new_pe(case["u"], case["e"])
+    m = new_pe(case["u"], case["e"], case.get("flavour"))
     r1 = m.get_result("ref", "est")
     v1 = res_view(r1)
     try:
@@ -311,10 +383,17 @@ def impl_hist(case):
 
 
 def build(tr, which):
+    """construction route and the cached views read before the call under test are part of the case;
+    the twin used for the expected values is built by the same recipe"""
     from evo.core.trajectory import PoseTrajectory3D
-    return PoseTrajectory3D(positions_xyz=np.array(tr[which + "_xyz"], dtype=float),
-                            orientations_quat_wxyz=np.array(tr[which + "_q"], dtype=float),
-                            timestamps=np.array(tr["ts"], dtype=float))
+    t = PoseTrajectory3D(positions_xyz=np.array(tr[which + "_xyz"], dtype=float),
+                         orientations_quat_wxyz=np.array(tr[which + "_q"], dtype=float),
+                         timestamps=np.array(tr["ts"], dtype=float))
+    if tr.get("route") == "poses":
+        t = PoseTrajectory3D(poses_se3=[np.array(p) for p in t.poses_se3], timestamps=np.array(tr["ts"], dtype=float))
+    for attr in tr.get("preread", []):
+        getattr(t, attr)
+    return t
 
 
 def traj_view(t):
@@ -399,10 +478,51 @@ def big_errors(case):
     return np.abs(rs.normal(0, 0.5, size=case["n"]))
 
 
+def impl_reuse(case):
+    """one metric object over the whole history; the expected fresh values of each process_data come from a
+    new metric object on identically built twins"""
+    from evo.core import metrics
+    from evo.core.units import Unit
+    rel = metrics.PoseRelation[case["rel"]]
+
+    def mk():
+        return metrics.APE(rel) if case["metric"] == "ape" else metrics.RPE(rel, 1, Unit.frames)
+    m = mk()
+    out = []
+    with quiet():
+        for st in case["steps"]:
+            if st["op"] == "P":
+                m.process_data((build(st["traj"], "ref"), build(st["traj"], "est")))
+                twin = mk()
+                twin.process_data((build(st["traj"], "ref"), build(st["traj"], "est")))
+                out.append({"fresh": fl(twin.error), "fresh_unit": twin.unit.name})
+            elif st["op"] == "C":
+                try:
+                    m.change_unit(unit_of(st["unit"]))
+                    out.append({"ok": True})
+                except metrics.MetricsException:
+                    out.append({"ok": False})
+            else:
+                res = m.get_result("ref", "est")
+                out.append({"label": res.info.get("label"), "title": res.info.get("title"), "unit": m.unit.name,
+                            "values": fl(res.np_arrays["error_array"]), "stats": {k: float(v) for k, v in res.stats.items()}})
+    return {"steps": out}
+
+
 def run_impl(case):
+    """every call into evo is wrapped: an unexpected exception is judged by the oracle, not a harness crash"""
+    try:
+        return run_impl_(case)
+    except Exception as e:  # noqa: BLE001
+        return {"crash": type(e).__name__ + ": " + str(e)[:120]}
+
+
+def run_impl_(case):
     k = case["kind"]
+    if k == "reuse":
+        return impl_reuse(case)
     if k == "stats":
-        return impl_stats(case["e"])
+        return impl_stats(case["e"], case.get("flavour"))
     if k == "stats_big":
         return impl_stats(big_errors(case))
     if k == "units":
@@ -418,7 +538,15 @@ def flat3(ps):
 
 
 def model_lines(case, impl):
+    if "crash" in impl:
+        return []
     k = case["kind"]
+    if k == "reuse":
+        nat = (SPEC_REL_UNIT_APE if case["metric"] == "ape" else SPEC_REL_UNIT_RPE)[case["rel"]]
+        toks = []
+        for st, so in zip(case["steps"], impl["steps"]):
+            toks.append("P " + ratlist(so["fresh"]) if st["op"] == "P" else "C " + st["unit"] if st["op"] == "C" else "R")
+        return [f"C12 reuse {hexs(case['metric'].upper())} {nat} " + " ".join(toks)]
     if k == "stats":
         return ["C12 stats " + ratlist(case["e"])]
     if k == "stats_big":
@@ -604,8 +732,8 @@ def judge_hist(ctx, case, impl, outs):
     fa, fb = impl["first_after"], impl["first_before"]
     # ---- model (heap model of the repaired code): the earlier result's array after the conversion
     k = 0 if sf is None else sf[1]
-    want_res = [dec(x) for x in new["res"]]
-    if len(fa["error_array"]) != len(want_res) or any(dec(a) != w for a, w in zip(fa["error_array"], want_res)):
+    want_res = list(new["res"])
+    if len(fa["error_array"]) != len(want_res) or any(frac(a) != w for a, w in zip(fa["error_array"], want_res)):
         ctx.mismatch(case, "earlier result's error_array after change_unit differs from the heap model (changeUnitH)",
                      fa["error_array"][:4], [float(x) for x in want_res[:4]])
     if fa["label"] != new["label"]:
@@ -800,7 +928,7 @@ def judge_metric(ctx, case, impl, outs):
             ctx.mismatch(case, f"{key}: length differs from the bookkeeping model", None if a is None else len(a), len(mv))
             continue
         for k_, (x, w) in enumerate(zip(a, mv)):
-            good = dec(x) == w if exact_cmp else close(x, w, (abs(P_est["ts"][0]) if key.startswith("sec") else mxp * (k_ + 2)), ulps=64 if not key.startswith("sec") else 2)
+            good = frac(x) == m_ts[k_] if exact_cmp else close(x, w, (abs(P_est["ts"][0]) if key.startswith("sec") else mxp * (k_ + 2)), ulps=64 if not key.startswith("sec") else 2)
             if not good:
                 ctx.mismatch(case, f"{key}[{k_}] differs from the bookkeeping model", x, float(w))
                 break
@@ -824,8 +952,66 @@ def n_lines(case, impl):
     return len(model_lines(case, impl))
 
 
+def judge_reuse(ctx, case, impl, outs):
+    """every get_result of the history is judged on the data of the latest process_data alone"""
+    name = case["metric"].upper()
+    nat = (SPEC_REL_UNIT_APE if case["metric"] == "ape" else SPEC_REL_UNIT_RPE)[case["rel"]]
+    mres = [x.strip() for x in outs[0].split(";")] if outs[0].strip() else []
+    ri, n_proc = 0, 0
+    exp_vals, exp_unit = None, nat            # what the property statement expects the object to hold
+    converted_earlier, conv_since_p = False, False
+    for k, (st, so) in enumerate(zip(case["steps"], impl["steps"])):
+        if st["op"] == "P":
+            if so["fresh_unit"] != nat:
+                ctx.fail(case, "relation-unit", f"{name}({case['rel']}) has unit {so['fresh_unit']}")
+            exp_vals, exp_unit = [dec(x) for x in so["fresh"]], nat
+            n_proc += 1
+            converted_earlier, conv_since_p = converted_earlier or conv_since_p, False
+        elif st["op"] == "C":
+            sf = spec_factor(exp_unit, st["unit"])
+            if sf is not None and exp_vals:
+                conv_since_p = conv_since_p or st["unit"] != exp_unit
+                f = dec(sf[0]) * pipow(sf[1])
+                exp_vals, exp_unit = [v * f for v in exp_vals], st["unit"]
+        else:
+            # ---- model (mirrors the code: process_data keeps the unit of the object)
+            if ri < len(mres):
+                toks = mres[ri].split()
+                mu, mlab, mk = toks[0], bytes.fromhex(toks[1]).decode(), int(toks[2])
+                mv = [core.parse_rat(x) for x in toks[4:]]
+                if so["unit"] != mu or so["label"] != mlab:
+                    ctx.mismatch(case, f"step {k}: unit/label of the reused metric differ from the model", (so["unit"], so["label"]), (mu, mlab))
+                elif len(mv) != len(so["values"]) or any(not close(a, dec(b) * pipow(mk), 0, ulps=8) for a, b in zip(so["values"], mv)):
+                    ctx.mismatch(case, f"step {k}: values of the reused metric differ from the model", so["values"][:4], [float(b) for b in mv[:4]])
+            else:
+                ctx.mismatch(case, f"step {k}: no model result", None, outs[0][:60])
+            ri += 1
+            # ---- oracle
+            tags = {"history": "change_unit-then-process_data"} if converted_earlier and n_proc >= 2 else {}
+            lab, title = so["label"] or "", so["title"] or ""
+            want_u = f"({SPEC_VALUE[exp_unit]})"
+            if not (lab.startswith(name) and want_u in lab and want_u in title.split("\n")[0] and SPEC_REL_VALUE[case["rel"]] in title):
+                ctx.fail(case, "label-names-unit-actually-used", f"step {k}: label {lab!r} / title {title.splitlines()[0]!r}, but the values "
+                         f"{so['values'][:3]} of evaluation #{n_proc} are {name} ({case['rel']}) in {SPEC_VALUE[exp_unit]}", tags)
+            if len(so["values"]) != len(exp_vals) or any(not close(a, w, 0, ulps=8) for a, w in zip(so["values"], exp_vals)):
+                ctx.fail(case, "result-holds-this-evaluations-values", f"step {k}: values {so['values'][:3]}, evaluation #{n_proc} in "
+                         f"{SPEC_VALUE[exp_unit]} gives {[float(w) for w in exp_vals[:3]]}", tags)
+            if so["values"]:
+                oracle_stats(ctx, case, so["values"], so["stats"], f"step {k} result")
+    ctx.count("dist", f"reuse:{case['metric']}:{n_proc}-evaluations")
+    ctx.count("branch", "reuse-converted-then-reprocessed" if converted_earlier else "reuse-plain")
+    ctx.record(case, n_proc >= 2)
+
+
 def judge(ctx, case, impl, outs):
+    if "crash" in impl:
+        ctx.fail(case, "evo-call-crashed", impl["crash"], {"kind": case["kind"]})
+        ctx.record(case, False)
+        return
     k = case["kind"]
+    if k == "reuse":
+        judge_reuse(ctx, case, impl, outs)
+        return
     if k in ("stats", "stats_big"):
         judge_stats(ctx, case, impl, outs)
     elif k == "units":
